@@ -11,7 +11,7 @@ from concurrent.futures import ThreadPoolExecutor
 RULE = ('the bus in-process (BusContext on debug-pipe, libdbus clients in the same process) with allocation failure injected only while the bus '
         'handles the target request: for prior states reached by random histories of Hello / RequestName / ReleaseName / AddMatch (contended names, '
         'queued owners, rules present) and target requests Hello, RequestName (all decision-table rows), ReleaseName (primary and queued), AddMatch, '
-        'RemoveMatch (held and not held), broadcast and unicast messages, a method reply routed between two peers (followed by a retry or by the replier leaving): every failing allocation index k (quick: up to 24 evenly spaced per target) '
+        'RemoveMatch (held and not held), the same requests carrying NO_REPLY_EXPECTED, broadcast and unicast messages, a method reply routed between two peers (followed by a retry or by the replier leaving): every failing allocation index k (quick: up to 24 evenly spaced per target) '
         'followed by an internal-state dump (registry queues, rule counts, owned-service counts), a retry without fault, another dump, queue listings and the disconnection of the requester; TLC validates each run as a Bus.tla behaviour in '
         'which a faulted request is either the normal action or OomAbort; non-trivial = distinct (history, target, k)')
 CONF = '''<!DOCTYPE busconfig PUBLIC "-//freedesktop//DTD D-Bus Bus Configuration 1.0//EN" "http://www.freedesktop.org/standards/dbus/1.0/busconfig.dtd">
@@ -61,6 +61,10 @@ def targets(rng, held):
     t.append('%d K sig com.example.I Ma %s' % (c, hexs(rng.choice(['x', 'y']))))
     t.append('%d K call %s Ma' % (c, rng.choice(NAMES)))
     t.append('4 K hello')
+    # the same requests with NO_REPLY_EXPECTED: nobody is waiting for the answer, the roll-back must be the same
+    t.append('%d K req! %s %d' % (c, rng.choice(NAMES), rng.randrange(8)))
+    t.append('%d K addmatch! %s' % (c, hexs(rng.choice(RULES))))
+    t.append('%d K rel! %s' % (rng.choice([1, 2, 3]), rng.choice(NAMES)))
     return rng.sample(t, 3)
 
 
